@@ -771,7 +771,23 @@ static void heap_nontrivial(void) {
 }
 
 /* ------------------------------------------------------------ generator */
+static void heap_generate_random(Plan* p, Rng* r, int maxops);
 static void heap_generate(Plan* p, Rng* r) {
+  if (plan_env(p, "enum", 0)) {
+    /* enumeration family: run index = base * 26 + v.  The base plan (<= 12 operations, no random bursts) is the same for all 26
+     * members; member v < 13 places one allocation-pressure burst right after operation v (v = 12: none) - every collection
+     * point of the plan in turn - and member v >= 13 cuts the plan after v - 13 operations - every teardown point in turn. */
+    uint64_t base = p->run / 26; int v = (int)(p->run % 26);
+    Rng rb; rng_seed(&rb, p->seed, base, STREAM_PLAN);
+    heap_generate_random(p, &rb, 12);
+    for (int i = 0; i < p->nops; i++) p->ops[i].fault = 0;
+    if (v < 13) { if (v < p->nops) p->ops[v].fault = 1; }
+    else if (v - 13 < p->nops) p->nops = v - 13;
+    return;
+  }
+  heap_generate_random(p, r, 0);
+}
+static void heap_generate_random(Plan* p, Rng* r, int maxops) {
   int focus = (int)plan_env(p, "focus", 1);
   if (plan_env(p, "alloc.place", -1) < 0) {
     static const int pl[] = { PLACE_BUMP, PLACE_LIFO, PLACE_LIFO, PLACE_QUARANTINE, PLACE_SEEDED, PLACE_ADVERSARIAL, PLACE_ADVERSARIAL };
@@ -783,6 +799,7 @@ static void heap_generate(Plan* p, Rng* r) {
   if (plan_env(p, "alloc.realloc", -1) < 0) plan_env_set(p, "alloc.realloc", (int)rng_below(r, 3));
   if (plan_env(p, "inthread", -1) < 0 && focus != 19) plan_env_set(p, "inthread", rng_chance(r, 1, 5));
   int nops = rng_chance(r, 6, 10) ? 10 + (int)rng_below(r, 50) : 60 + (int)rng_below(r, 240);
+  if (maxops) nops = 4 + (int)rng_below(r, (uint32_t)maxops - 3);
   int stopped = 0;
   int allow_stop = (focus == 6 || focus == 5 || focus == 17 || focus == 0) && !(plan_env(p, "avoid_kf", 0) & 8);
   int badpct = focus == 19 ? 12 : 0;
@@ -807,7 +824,7 @@ static void heap_generate(Plan* p, Rng* r) {
     else if (d < 96) { if (allow_stop) { plan_add(p, stopped ? H_START : H_STOP, 0, 0, 0, 0, 0, 0, 0, 0); stopped = !stopped; } else plan_add(p, H_BURST, 0, 0, a, 0, 0, 0, 0, 0); }
     else if (d < 97) plan_add(p, H_COPY, 0, fault, a, b, 0, 0, 0, 0);
     else if (d < 98) plan_add(p, (focus == 6 || focus == 5) ? H_BADNEW : H_REGHOLD, 0, 0, a, 0, 0, 0, 0, 0);
-    else { int64_t n = rng_chance(r, 1, 4) ? 1000 + rng_below(r, 9000) : 5 + rng_below(r, 300); if (focus == 17) n = 5 + rng_below(r, 200); plan_add(p, H_CHAIN, 0, 0, a, n, 0, 0, 0, 0); }
+    else { int64_t n = rng_chance(r, 1, 4) ? 1000 + rng_below(r, 9000) : 5 + rng_below(r, 300); if (focus == 17 || maxops) n = 5 + rng_below(r, 200); plan_add(p, H_CHAIN, 0, 0, a, n, 0, 0, 0, 0); }
   }
 }
 
